@@ -6,7 +6,6 @@ import Chiritori.Spec.Defs
 namespace Chiritori
 open Spec
 
-abbrev NL : ABy := .lead '\n'
 
 theorem mem_lineMapAux (bs : Bytes) (i p : Nat) : p ∈ lineMapAux bs i ↔ i ≤ p ∧ bs[p - i]? = some NL := by
   induction bs generalizing i with
